@@ -30,6 +30,7 @@ CONSTANTS
     RearmGuard,     \* TRUE: after re-arming the deadline the uplink re-checks that shutdown has not begun
     Rejected,       \* targets the router rejects: a session whose first packet names one fails to initialise
     Unresolvable,   \* domain names whose lookup fails (NXDOMAIN): the packet is dropped, the cache must not change
+    Batch,          \* TRUE: the downlink reads every reply that has arrived in one recvmmsg batch (sendmmsg path)
     Keyed           \* "addr": sessions keyed by client address (NAT relays); "sid": keyed by client session id, following
                     \* the client's latest address (Shadowsocks 2022 session relays)
 
@@ -48,6 +49,8 @@ VARIABLES
     pk,         \* packer resolution cache per owner: [dom, ip]
     cli,        \* the client's current address (1 or 2); only "sid" relays let a session move
     seen,       \* the client address the relay has recorded for the session (source of the last accepted packet)
+    inbox,      \* replies that have arrived at the session's socket and are not read yet: Seq({"ok","big"})
+    got,        \* the batch the downlink has read and is working on
     has,        \* this generation of the session has sent a datagram (so a reply can come back to its socket)
     sent,       \* ghost/output: datagrams that left the relay  [s, t, to]
     back,       \* ghost/output: replies delivered to clients  [s]
@@ -57,7 +60,7 @@ VARIABLES
     act
 
 None == "-"
-sv == <<table, state, ch, chOpen, ipc, upc, first, cur, rip, dest, dl, sock, pk, cli, seen, has, sent, back, spc, rloop, nsend, nreply, ntimer>>
+sv == <<table, state, ch, chOpen, ipc, upc, first, cur, rip, dest, dl, sock, pk, cli, seen, inbox, got, has, sent, back, spc, rloop, nsend, nreply, ntimer>>
 vars == <<sv, act>>
 
 Owner(s) == IF SharedPacker THEN "shared" ELSE s
@@ -73,6 +76,7 @@ Init ==
     /\ dl = [s \in Sess |-> "none"] /\ sock = [s \in Sess |-> "none"]
     /\ pk = [o \in Owners |-> [dom |-> None, ip |-> None]]
     /\ cli = [s \in Sess |-> 1] /\ seen = [s \in Sess |-> 0]
+    /\ inbox = [s \in Sess |-> <<>>] /\ got = [s \in Sess |-> <<>>]
     /\ has = [s \in Sess |-> FALSE]
     /\ sent = {} /\ back = {}
     /\ spc = "idle" /\ rloop = "run"
@@ -99,6 +103,8 @@ RecvPkt(s, t) ==
               /\ first' = [first EXCEPT ![s] = t]
               /\ act' = [n |-> "RecvPkt", s |-> s, t |-> t, out |-> "new", from |-> cli[s]]
     /\ has' = IF s \in table THEN has ELSE [has EXCEPT ![s] = FALSE]
+    /\ inbox' = (IF s \in table THEN inbox ELSE [inbox EXCEPT ![s] = <<>>])
+    /\ got' = got
     /\ seen' = [seen EXCEPT ![s] = cli[s]] /\ cli' = cli
     /\ UNCHANGED <<cur, rip, dest, pk, sent, back, spc, rloop, nreply, ntimer>>
 
@@ -112,7 +118,7 @@ Garbage(s) ==
 Move(s) ==
     /\ Keyed = "sid" /\ cli[s] = 1
     /\ cli' = [cli EXCEPT ![s] = 2]
-    /\ UNCHANGED <<table, state, ch, chOpen, ipc, upc, first, cur, rip, dest, dl, sock, pk, seen, has, sent, back, spc, rloop, nsend, nreply, ntimer>>
+    /\ UNCHANGED <<table, state, ch, chOpen, ipc, upc, first, cur, rip, dest, dl, sock, pk, seen, inbox, got, has, sent, back, spc, rloop, nsend, nreply, ntimer>>
     /\ act' = [n |-> "Move", s |-> s]
 
 \* a datagram from a foreign address that carries a live session's id but does not authenticate (forged or
@@ -127,13 +133,13 @@ InitOk(s) ==
     /\ ipc[s] = "init" /\ first[s] \notin Rejected
     /\ sock' = [sock EXCEPT ![s] = "open"] /\ dl' = [dl EXCEPT ![s] = "future"]
     /\ ipc' = [ipc EXCEPT ![s] = "swap"]
-    /\ UNCHANGED <<table, state, ch, chOpen, upc, first, cur, rip, dest, pk, cli, seen, has, sent, back, spc, rloop, nsend, nreply, ntimer>>
+    /\ UNCHANGED <<table, state, ch, chOpen, upc, first, cur, rip, dest, pk, cli, seen, inbox, got, has, sent, back, spc, rloop, nsend, nreply, ntimer>>
     /\ act' = [n |-> "InitOk", s |-> s]
 
 InitFail(s) ==
     /\ ipc[s] = "init" /\ first[s] \in Rejected
     /\ ipc' = [ipc EXCEPT ![s] = "cleanup"]
-    /\ UNCHANGED <<table, state, ch, chOpen, upc, first, cur, rip, dest, dl, sock, pk, cli, seen, has, sent, back, spc, rloop, nsend, nreply, ntimer>>
+    /\ UNCHANGED <<table, state, ch, chOpen, upc, first, cur, rip, dest, dl, sock, pk, cli, seen, inbox, got, has, sent, back, spc, rloop, nsend, nreply, ntimer>>
     /\ act' = [n |-> "InitFail", s |-> s]
 
 \* I: oldState := entry.state.Swap(natConn)
@@ -149,7 +155,7 @@ Swap(s) ==
               /\ sock' = [sock EXCEPT ![s] = "closed"]
               /\ ipc' = [ipc EXCEPT ![s] = "cleanup"]
               /\ act' = [n |-> "Swap", s |-> s, out |-> "aborted"]
-    /\ UNCHANGED <<table, ch, chOpen, first, cur, rip, dest, dl, pk, cli, seen, has, sent, back, spc, rloop, nsend, nreply, ntimer>>
+    /\ UNCHANGED <<table, ch, chOpen, first, cur, rip, dest, dl, pk, cli, seen, inbox, got, has, sent, back, spc, rloop, nsend, nreply, ntimer>>
 
 \* U: queuedPacket := <-natConnSendCh
 UpDequeue(s) ==
@@ -158,21 +164,21 @@ UpDequeue(s) ==
     /\ IF Head(ch[s]) \in Domains
          THEN upc' = [upc EXCEPT ![s] = "chk"] /\ dest' = dest
          ELSE upc' = [upc EXCEPT ![s] = "send"] /\ dest' = [dest EXCEPT ![s] = Head(ch[s])]
-    /\ UNCHANGED <<table, state, chOpen, ipc, first, rip, dl, sock, pk, cli, seen, has, sent, back, spc, rloop, nsend, nreply, ntimer>>
+    /\ UNCHANGED <<table, state, chOpen, ipc, first, rip, dl, sock, pk, cli, seen, inbox, got, has, sent, back, spc, rloop, nsend, nreply, ntimer>>
     /\ act' = [n |-> "UpDequeue", s |-> s, t |-> Head(ch[s])]
 
 \* U: the channel is closed and drained: natConn.Close(), clientSession.Close()
 UpClosed(s) ==
     /\ upc[s] = "idle" /\ ch[s] = <<>> /\ ~chOpen[s]
     /\ upc' = [upc EXCEPT ![s] = "done"] /\ sock' = [sock EXCEPT ![s] = "closed"]
-    /\ UNCHANGED <<table, state, ch, chOpen, ipc, first, cur, rip, dest, dl, pk, cli, seen, has, sent, back, spc, rloop, nsend, nreply, ntimer>>
+    /\ UNCHANGED <<table, state, ch, chOpen, ipc, first, cur, rip, dest, dl, pk, cli, seen, inbox, got, has, sent, back, spc, rloop, nsend, nreply, ntimer>>
     /\ act' = [n |-> "UpClosed", s |-> s]
 
 \* DirectPacketClientPacker.updateDomainIPCache / PackInPlace, four steps
 PackChk(s) ==
     /\ upc[s] = "chk"
     /\ upc' = [upc EXCEPT ![s] = IF pk[Owner(s)].dom = cur[s] THEN "lod" ELSE "res"]
-    /\ UNCHANGED <<table, state, ch, chOpen, ipc, first, cur, rip, dest, dl, sock, pk, cli, seen, has, sent, back, spc, rloop, nsend, nreply, ntimer>>
+    /\ UNCHANGED <<table, state, ch, chOpen, ipc, first, cur, rip, dest, dl, sock, pk, cli, seen, inbox, got, has, sent, back, spc, rloop, nsend, nreply, ntimer>>
     /\ act' = [n |-> "PackChk", s |-> s, out |-> IF pk[Owner(s)].dom = cur[s] THEN "hit" ELSE "miss"]
 \* ResolveIP(ctx, ...): the manager's context is cancelled when shutdown begins, the lookup then fails,
 \* the packet is dropped ("Failed to pack packet") and the uplink goes back to the channel without re-arming
@@ -183,16 +189,16 @@ PackRes(s) ==
               /\ act' = [n |-> "PackRes", s |-> s, out |-> "ok"]
          ELSE /\ rip' = rip /\ upc' = [upc EXCEPT ![s] = "idle"]
               /\ act' = [n |-> "PackRes", s |-> s, out |-> IF spc = "idle" THEN "failed" ELSE "cancelled"]
-    /\ UNCHANGED <<table, state, ch, chOpen, ipc, first, cur, dest, dl, sock, pk, cli, seen, has, sent, back, spc, rloop, nsend, nreply, ntimer>>
+    /\ UNCHANGED <<table, state, ch, chOpen, ipc, first, cur, dest, dl, sock, pk, cli, seen, inbox, got, has, sent, back, spc, rloop, nsend, nreply, ntimer>>
 PackSto(s) ==
     /\ upc[s] = "sto"
     /\ pk' = [pk EXCEPT ![Owner(s)] = [dom |-> cur[s], ip |-> rip[s]]] /\ upc' = [upc EXCEPT ![s] = "lod"]
-    /\ UNCHANGED <<table, state, ch, chOpen, ipc, first, cur, rip, dest, dl, sock, cli, seen, has, sent, back, spc, rloop, nsend, nreply, ntimer>>
+    /\ UNCHANGED <<table, state, ch, chOpen, ipc, first, cur, rip, dest, dl, sock, cli, seen, inbox, got, has, sent, back, spc, rloop, nsend, nreply, ntimer>>
     /\ act' = [n |-> "PackSto", s |-> s]
 PackLod(s) ==
     /\ upc[s] = "lod"
     /\ dest' = [dest EXCEPT ![s] = pk[Owner(s)].ip] /\ upc' = [upc EXCEPT ![s] = "send"]
-    /\ UNCHANGED <<table, state, ch, chOpen, ipc, first, cur, rip, dl, sock, pk, cli, seen, has, sent, back, spc, rloop, nsend, nreply, ntimer>>
+    /\ UNCHANGED <<table, state, ch, chOpen, ipc, first, cur, rip, dl, sock, pk, cli, seen, inbox, got, has, sent, back, spc, rloop, nsend, nreply, ntimer>>
     /\ act' = [n |-> "PackLod", s |-> s, out |-> pk[Owner(s)].ip]
 
 \* U: natConn.WriteToUDPAddrPort / WriteMsgs
@@ -201,7 +207,7 @@ UpSend(s) ==
     /\ sent' = sent \cup {[s |-> s, t |-> cur[s], to |-> dest[s]]}
     /\ has' = [has EXCEPT ![s] = TRUE]
     /\ upc' = [upc EXCEPT ![s] = "rearm"]
-    /\ UNCHANGED <<table, state, ch, chOpen, ipc, first, cur, rip, dest, dl, sock, pk, cli, seen, back, spc, rloop, nsend, nreply, ntimer>>
+    /\ UNCHANGED <<table, state, ch, chOpen, ipc, first, cur, rip, dest, dl, sock, pk, cli, seen, inbox, got, back, spc, rloop, nsend, nreply, ntimer>>
     /\ act' = [n |-> "UpSend", s |-> s, t |-> cur[s], to |-> dest[s]]
 
 \* U: natConn.SetReadDeadline(now + natTimeout)  [+ the guard, when present]
@@ -209,35 +215,47 @@ UpRearm(s) ==
     /\ upc[s] = "rearm"
     /\ dl' = [dl EXCEPT ![s] = IF RearmGuard /\ state[s] = "srv" THEN "past" ELSE "future"]
     /\ upc' = [upc EXCEPT ![s] = "idle"]
-    /\ UNCHANGED <<table, state, ch, chOpen, ipc, first, cur, rip, dest, sock, pk, cli, seen, has, sent, back, spc, rloop, nsend, nreply, ntimer>>
+    /\ UNCHANGED <<table, state, ch, chOpen, ipc, first, cur, rip, dest, sock, pk, cli, seen, inbox, got, has, sent, back, spc, rloop, nsend, nreply, ntimer>>
     /\ act' = [n |-> "UpRearm", s |-> s]
 
-\* I (downlink): a reply arrives on natConn while the deadline has not passed
-DlRecv(s) ==
-    /\ ipc[s] = "read" /\ dl[s] = "future" /\ nreply[s] < MaxReply /\ has[s]
+\* the target answers: a datagram arrives at the session's socket ("big": one that the server packer will refuse
+\* because it does not fit the client's path MTU)
+TargetReply(s, k) ==
+    /\ has[s] /\ sock[s] = "open" /\ nreply[s] < MaxReply
     /\ nreply' = [nreply EXCEPT ![s] = @ + 1]
+    /\ inbox' = [inbox EXCEPT ![s] = Append(@, k)]
+    /\ UNCHANGED <<table, state, ch, chOpen, ipc, upc, first, cur, rip, dest, dl, sock, pk, cli, seen, got, has, sent, back, spc, rloop, nsend, ntimer>>
+    /\ act' = [n |-> "TargetReply", s |-> s, k |-> k]
+\* I (downlink): ReadMsgUDPAddrPort returns one datagram / ReadMsgs returns everything that has arrived
+DlRead(s) ==
+    /\ ipc[s] = "read" /\ dl[s] = "future" /\ inbox[s] # <<>>
+    /\ got' = [got EXCEPT ![s] = IF Batch THEN inbox[s] ELSE <<Head(inbox[s])>>]
+    /\ inbox' = [inbox EXCEPT ![s] = IF Batch THEN <<>> ELSE Tail(inbox[s])]
     /\ ipc' = [ipc EXCEPT ![s] = "reply"]
-    /\ UNCHANGED <<table, state, ch, chOpen, upc, first, cur, rip, dest, dl, sock, pk, cli, seen, has, sent, back, spc, rloop, nsend, ntimer>>
-    /\ act' = [n |-> "DlRecv", s |-> s]
-\* I (downlink): unpack, pack for the client, serverConn.WriteMsgUDPAddrPort to the owner of the session
+    /\ UNCHANGED <<table, state, ch, chOpen, upc, first, cur, rip, dest, dl, sock, pk, cli, seen, has, sent, back, spc, rloop, nsend, nreply, ntimer>>
+    /\ act' = [n |-> "DlRead", s |-> s, k |-> Len(got'[s])]
+\* I (downlink): unpack, pack for the client (an oversized one is dropped), send what was packed - and only that -
+\* to the session's recorded client address
+Oks(q) == Len(SelectSeq(q, LAMBDA x : x = "ok"))
 DlSendBack(s) ==
     /\ ipc[s] = "reply"
-    /\ back' = back \cup {[s |-> s, to |-> seen[s]]}
+    /\ back' = IF Oks(got[s]) > 0 THEN back \cup {[s |-> s, to |-> seen[s]]} ELSE back
+    /\ got' = [got EXCEPT ![s] = <<>>]
     /\ ipc' = [ipc EXCEPT ![s] = "read"]
-    /\ UNCHANGED <<table, state, ch, chOpen, upc, first, cur, rip, dest, dl, sock, pk, cli, seen, has, sent, spc, rloop, nsend, nreply, ntimer>>
-    /\ act' = [n |-> "DlSendBack", s |-> s, to |-> seen[s]]
+    /\ UNCHANGED <<table, state, ch, chOpen, upc, first, cur, rip, dest, dl, sock, pk, cli, seen, inbox, has, sent, spc, rloop, nsend, nreply, ntimer>>
+    /\ act' = [n |-> "DlSendBack", s |-> s, to |-> seen[s], k |-> Oks(got[s]), drop |-> Len(got[s]) - Oks(got[s])]
 \* I (downlink): the read returns os.ErrDeadlineExceeded
 DlTimeout(s) ==
     /\ ipc[s] = "read" /\ dl[s] = "past"
     /\ ipc' = [ipc EXCEPT ![s] = "cleanup"]
-    /\ UNCHANGED <<table, state, ch, chOpen, upc, first, cur, rip, dest, dl, sock, pk, cli, seen, has, sent, back, spc, rloop, nsend, nreply, ntimer>>
+    /\ UNCHANGED <<table, state, ch, chOpen, upc, first, cur, rip, dest, dl, sock, pk, cli, seen, inbox, got, has, sent, back, spc, rloop, nsend, nreply, ntimer>>
     /\ act' = [n |-> "DlTimeout", s |-> s]
 
 \* the NAT timeout elapses without the uplink re-arming (only before shutdown, see StopTerminates)
 TimerFire(s) ==
     /\ spc = "idle" /\ dl[s] = "future" /\ ntimer < MaxTimer
     /\ dl' = [dl EXCEPT ![s] = "past"] /\ ntimer' = ntimer + 1
-    /\ UNCHANGED <<table, state, ch, chOpen, ipc, upc, first, cur, rip, dest, sock, pk, cli, seen, has, sent, back, spc, rloop, nsend, nreply>>
+    /\ UNCHANGED <<table, state, ch, chOpen, ipc, upc, first, cur, rip, dest, sock, pk, cli, seen, inbox, got, has, sent, back, spc, rloop, nsend, nreply>>
     /\ act' = [n |-> "TimerFire", s |-> s]
 
 \* I: deferred: s.mu.Lock(); close(natConnSendCh); delete(s.table, key); s.mu.Unlock(); drain if the uplink never ran
@@ -247,19 +265,19 @@ Cleanup(s) ==
     /\ ch' = IF upc[s] = "none" THEN [ch EXCEPT ![s] = <<>>] ELSE ch
     /\ sock' = IF upc[s] = "none" /\ sock[s] = "open" THEN [sock EXCEPT ![s] = "closed"] ELSE sock
     /\ ipc' = [ipc EXCEPT ![s] = "done"]
-    /\ UNCHANGED <<state, upc, first, cur, rip, dest, dl, pk, cli, seen, has, sent, back, spc, rloop, nsend, nreply, ntimer>>
+    /\ UNCHANGED <<state, upc, first, cur, rip, dest, dl, pk, cli, seen, inbox, got, has, sent, back, spc, rloop, nsend, nreply, ntimer>>
     /\ act' = [n |-> "Cleanup", s |-> s]
 
 \* Stop: serverConn.SetReadDeadline(past); the receive loop ends
 StopBegin ==
     /\ spc = "idle"
     /\ spc' = "waitrecv"
-    /\ UNCHANGED <<table, state, ch, chOpen, ipc, upc, first, cur, rip, dest, dl, sock, pk, cli, seen, has, sent, back, rloop, nsend, nreply, ntimer>>
+    /\ UNCHANGED <<table, state, ch, chOpen, ipc, upc, first, cur, rip, dest, dl, sock, pk, cli, seen, inbox, got, has, sent, back, rloop, nsend, nreply, ntimer>>
     /\ act' = [n |-> "StopBegin"]
 RecvLoopEnd ==
     /\ spc = "waitrecv" /\ rloop = "run"
     /\ rloop' = "done"
-    /\ UNCHANGED <<table, state, ch, chOpen, ipc, upc, first, cur, rip, dest, dl, sock, pk, cli, seen, has, sent, back, spc, nsend, nreply, ntimer>>
+    /\ UNCHANGED <<table, state, ch, chOpen, ipc, upc, first, cur, rip, dest, dl, sock, pk, cli, seen, inbox, got, has, sent, back, spc, nsend, nreply, ntimer>>
     /\ act' = [n |-> "RecvLoopEnd"]
 \* s.mwg.Wait() returned; under s.mu: swap every entry's state, force initialised natConns' deadline into the past
 StopSwapAll ==
@@ -267,23 +285,23 @@ StopSwapAll ==
     /\ state' = [s \in Sess |-> IF s \in table THEN "srv" ELSE state[s]]
     /\ dl' = [s \in Sess |-> IF s \in table /\ state[s] = "nat" THEN "past" ELSE dl[s]]
     /\ spc' = "waitall"
-    /\ UNCHANGED <<table, ch, chOpen, ipc, upc, first, cur, rip, dest, sock, pk, cli, seen, has, sent, back, rloop, nsend, nreply, ntimer>>
+    /\ UNCHANGED <<table, ch, chOpen, ipc, upc, first, cur, rip, dest, sock, pk, cli, seen, inbox, got, has, sent, back, rloop, nsend, nreply, ntimer>>
     /\ act' = [n |-> "StopSwapAll"]
 \* s.wg.Wait() returned; listeners closed
 StopEnd ==
     /\ spc = "waitall" /\ \A s \in Sess : Gone(s)
     /\ spc' = "done"
-    /\ UNCHANGED <<table, state, ch, chOpen, ipc, upc, first, cur, rip, dest, dl, sock, pk, cli, seen, has, sent, back, rloop, nsend, nreply, ntimer>>
+    /\ UNCHANGED <<table, state, ch, chOpen, ipc, upc, first, cur, rip, dest, dl, sock, pk, cli, seen, inbox, got, has, sent, back, rloop, nsend, nreply, ntimer>>
     /\ act' = [n |-> "StopEnd"]
 
 SessionStep(s) ==
     \/ InitOk(s) \/ InitFail(s) \/ Swap(s) \/ UpDequeue(s) \/ UpClosed(s)
     \/ PackChk(s) \/ PackRes(s) \/ PackSto(s) \/ PackLod(s) \/ UpSend(s) \/ UpRearm(s)
-    \/ DlSendBack(s) \/ DlTimeout(s) \/ Cleanup(s)
+    \/ DlRead(s) \/ DlSendBack(s) \/ DlTimeout(s) \/ Cleanup(s)
 
 Next ==
     \/ \E s \in Sess, t \in Targets : RecvPkt(s, t)
-    \/ \E s \in Sess : SessionStep(s) \/ DlRecv(s) \/ TimerFire(s) \/ Move(s) \/ Forged(s)
+    \/ \E s \in Sess : SessionStep(s) \/ (\E k \in {"ok", "big"} : TargetReply(s, k)) \/ TimerFire(s) \/ Move(s) \/ Forged(s)
     \/ StopBegin \/ RecvLoopEnd \/ StopSwapAll \/ StopEnd
 
 \* goroutine steps are weakly fair; clients, targets and timers are not obliged to act
